@@ -407,6 +407,46 @@ func c18Usage(c *core.Ctx, dir string) {
 			c.Count("usage_and_io_error_cases", 1)
 		}
 	}
+	// a dump file name containing '=' ; loading it by FILE argument
+	if pre := runCLI(dir, "", "--bdump=env=prod.bcb", "ok.bcl"); true {
+		_, e1 := os.Stat(filepath.Join(dir, "env=prod.bcb"))
+		ld := runCLI(dir, "", "--bload", "env=prod.bcb")
+		c.Eval(2)
+		if pre.exit != 0 || e1 != nil || ld.exit != 0 || ld.stdout != pre.stdout {
+			c.Violation("cli-bdump-file-name", fmt.Sprintf("bcl --bdump=env=prod.bcb ok.bcl: exit %d, file written: %v; --bload env=prod.bcb: exit %d stderr %q", pre.exit, e1 == nil, ld.exit, ld.stderr), nil)
+		} else {
+			c.Count("usage_and_io_error_cases", 1)
+		}
+	}
+	// re-dump of a loaded program onto the file it was loaded from (either flag order), then load it again
+	if pre := runCLI(dir, "", "--bdump=inplace.bcb", "ok.bcl"); pre.exit == 0 {
+		before, _ := os.ReadFile(filepath.Join(dir, "inplace.bcb"))
+		for _, av := range [][]string{{"--bload", "inplace.bcb", "--bdump=inplace.bcb"}, {"--bdump=inplace.bcb", "--bload=inplace.bcb"}} {
+			g := runCLI(dir, "", av...)
+			after, _ := os.ReadFile(filepath.Join(dir, "inplace.bcb"))
+			c.Eval(1)
+			if g.exit != 0 || g.stdout != pre.stdout || !bytes.Equal(before, after) {
+				c.Violation("cli-redump-in-place", fmt.Sprintf("bcl %q: exit %d stdout %q stderr %q; file unchanged: %v", av, g.exit, g.stdout, g.stderr, bytes.Equal(before, after)), nil)
+				break
+			}
+			c.Count("usage_and_io_error_cases", 1)
+		}
+	}
+	// a dump written over an existing longer dump must be exactly the new dump
+	{
+		os.WriteFile(filepath.Join(dir, "long.bcl"), []byte(strings.Repeat("print 12345\n", 200)), 0o644)
+		a := runCLI(dir, "", "--bdump=over.bcb", "long.bcl")
+		b := runCLI(dir, "", "--bdump=over.bcb", "ok.bcl")
+		cref := runCLI(dir, "", "--bdump=fresh.bcb", "ok.bcl")
+		x, _ := os.ReadFile(filepath.Join(dir, "over.bcb"))
+		y, _ := os.ReadFile(filepath.Join(dir, "fresh.bcb"))
+		c.Eval(3)
+		if a.exit != 0 || b.exit != 0 || cref.exit != 0 || len(y) == 0 || !bytes.Equal(x, y) {
+			c.Violation("cli-bdump-over-existing", fmt.Sprintf("dumping over an existing longer dump leaves %d bytes, a fresh dump of the same program has %d", len(x), len(y)), nil)
+		} else {
+			c.Count("usage_and_io_error_cases", 1)
+		}
+	}
 	if pre := runCLI(dir, "", "--bdump=l.bcb", "ok.bcl"); pre.exit == 0 {
 		a, b := runCLI(dir, "", "--bload=l.bcb", "--bload"), runCLI(dir, "", "--bload", "--bload=l.bcb")
 		c.Eval(2)
